@@ -9,6 +9,9 @@ package db
 import (
 	"errors"
 	"fmt"
+	"math"
+	"regexp"
+	"strconv"
 	"strings"
 
 	"github.com/alicebob/sqlittle/sql"
@@ -99,7 +102,7 @@ func newCreateTable(ct sql.CreateTableStmt) *Schema {
 			Column:  c.Name,
 			Type:    c.Type,
 			Null:    c.Null,
-			Default: c.Default,
+			Default: defaultWithAffinity(c.Type, c.Default),
 			Collate: c.Collate,
 			Rowid:   false,
 		}
@@ -361,3 +364,59 @@ func isRowid(tableConstraint bool, typ string, dir sql.SortOrder) bool {
 	}
 	return tableConstraint || dir == sql.Asc
 }
+
+// A column DEFAULT is used for rows which were written before the column got
+// added (`ALTER TABLE ... ADD COLUMN`). SQLite gives those values the affinity
+// of the column, the same as it does for values which are stored. See
+// https://sqlite.org/datatype3.html chapter "3. Type Affinity".
+func defaultWithAffinity(typ string, v interface{}) interface{} {
+	const (
+		affBlob = iota
+		affText
+		affNumeric
+		affInteger
+		affReal
+	)
+	aff := affNumeric
+	switch u := strings.ToUpper(typ); {
+	case strings.Contains(u, "INT"):
+		aff = affInteger
+	case strings.Contains(u, "CHAR"), strings.Contains(u, "CLOB"), strings.Contains(u, "TEXT"):
+		aff = affText
+	case u == "", strings.Contains(u, "BLOB"):
+		aff = affBlob
+	case strings.Contains(u, "REAL"), strings.Contains(u, "FLOA"), strings.Contains(u, "DOUB"):
+		aff = affReal
+	}
+
+	switch aff {
+	case affText:
+		if n, ok := v.(int64); ok {
+			return strconv.FormatInt(n, 10)
+		}
+	case affNumeric, affInteger, affReal:
+		if s, ok := v.(string); ok {
+			// text which looks like a number is stored as that number
+			if n, err := strconv.ParseInt(strings.TrimSpace(s), 10, 64); err == nil {
+				v = n
+			} else if numericText.MatchString(s) {
+				if f, err := strconv.ParseFloat(strings.TrimSpace(s), 64); err == nil {
+					v = f
+				}
+			}
+		}
+		switch n := v.(type) {
+		case int64:
+			if aff == affReal {
+				return float64(n)
+			}
+		case float64:
+			if aff != affReal && n == math.Trunc(n) && n >= -9223372036854775808.0 && n < 9223372036854775808.0 {
+				return int64(n)
+			}
+		}
+	}
+	return v
+}
+
+var numericText = regexp.MustCompile(`^\s*[+-]?([0-9]+(\.[0-9]*)?|\.[0-9]+)([eE][+-]?[0-9]+)?\s*$`)
